@@ -3,12 +3,35 @@
 //! Naming: `cNN_q_*` quick+thorough, `cNN_t_*` thorough only, `cNN_w_*` mutant twin (must FAIL).
 //! Families: `_s_` one-step sender harnesses, `_k_` kernels, `_r_` receiver iteration.
 //!
-//! Composition (written argument, each premise is one of the harnesses):
-//! the shared state is touched only under the state lock; every sender operation acquires it exactly once
-//! (asserted in every `_s_` harness through the shim's acquisition counter) and so is one atomic step;
-//! `Sender::drop`/`Receiver::drop` set one flag (`_k_drop_flags`). The `_s_` harnesses start from an ARBITRARY
-//! state satisfying the representation invariant I0 = (capacity >= 1 /\ pending <= capacity) and show it is
-//! preserved, so their post-conditions hold after any history of any length and any number of senders.
+//! Composition (WRITTEN argument, not a solver result; each premise is one of the harnesses):
+//!
+//! Steps. The shared state (pending batch = queue + its watchers, `is_open`, `is_in_batch`) is touched only under the
+//! state lock (mutual exclusion of the std mutex is assumed). Every sender operation acquires it exactly once and
+//! holds it for all its accesses (asserted in every `_s_` harness through the shim's acquisition counter); the
+//! receiver acquires it exactly once per loop iteration and does everything else on local state (`_r_` harnesses:
+//! all effects of the iteration are complete at the next acquisition, snapshots inside `on_batch` assert the lock
+//! is free); `Sender::drop` / `Receiver::drop` set one flag (`_k_drop_*`). So every execution with any number of
+//! senders is equivalent to a sequence of these atomic steps, and it suffices to check each step from an
+//! ARBITRARY state satisfying the invariant I0 = (capacity >= 1 /\ pending <= capacity) and to show I0 preserved.
+//!
+//! C09. I0 is preserved by every step (`_s_`: `pending <= capacity` asserted after send / try_send / send_or_wait;
+//! the receiver only empties the queue), hence holds always. The overflow rule, the hand-back rule and "closed =>
+//! nothing enqueued" are the post-conditions of the single steps.
+//! C06. Ghost sequence A = accepted items in acceptance order. Sender steps append the accepted item at the tail and
+//! leave the prefix alone (`_s_`), or clear the queue and count it (send on full). A receiver step takes the WHOLE
+//! queue in order and leaves an empty one (`_r_`: ARG[0] == pre-queue, pending == 0 after the swap), so consecutive
+//! batches partition A minus the counted truncations; within the step the processor sees that batch first, then
+//! exactly the remainders it returned (`_r_`), at most budget+1 times. Exactly-once and FIFO follow by induction on
+//! the number of steps.
+//! C07. A flush callback is run immediately only in a state with no batch in flight and nothing pending (`_s_`), else
+//! it is pushed onto the PENDING batch (`_s_`, `_k_watchers`). Watchers are fields of the batch value: the receiver
+//! step moves them out together with the queue (`_r_`: none left behind, none run before the final attempt, each
+//! run exactly once after it, at once for an empty hand-off). Items whose send returned before the registration
+//! are either in that pending batch, in the batch in flight (whose final attempt precedes the next swap because the
+//! receiver is sequential), already finished, or were truncated. Induction as for C06.
+//! C08. Every receiver step terminates for every outcome/panic plan with <= budget+1 attempts and the configured
+//! non-decreasing, capped delays (`_r_`, `_k_retry`, `_k_delay_*`) and ends in a state from which the next step is
+//! again covered (arbitrary pre-state); closed and empty => `exec` returns (`_r_`).
 
 pub mod util;
 #[cfg(kani)]
